@@ -114,6 +114,20 @@ Example lost_save_rejected :
     [(nA, [(1,1);(2,2)], 1)] [(nA, [(1,1)], 1, 1)] 3) = false.
 Proof. vm_compute. reflexivity. Qed.
 
+(* a later segment of a run: it starts from the dump taken at the quiescent point (secret a
+   with versions 1,2, active 1, counter 2, generation 3); a delete-version of 2 overlapping an
+   activate of 2 - both succeeding is impossible in any order *)
+Example segment_accepted :
+  Run_C14.check (LCase [su] [(nA, [(1,1);(2,2)], 1, 2)] 3
+    [LC 11 14 0 (ODelVer nA 2) ROk; LC 12 13 0 (OActivate nA 2) RNotFound]
+    [(nA, [(1,1)], 1)] [(nA, [(1,1)], 1, 2)] 4) = true.
+Proof. vm_compute. reflexivity. Qed.
+Example active_version_deleted_rejected :
+  Run_C14.check (LCase [su] [(nA, [(1,1);(2,2)], 1, 2)] 3
+    [LC 11 14 0 (ODelVer nA 2) ROk; LC 12 13 0 (OActivate nA 2) ROk]
+    [(nA, [(1,1)], 2)] [(nA, [(1,1)], 2, 2)] 5) = false.
+Proof. vm_compute. reflexivity. Qed.
+
 (* the machine: two clients, interleaved; the hypotheses of the design theorem are met *)
 Definition demo_trace : list (event lop) :=
   [EInv 0 (0%nat, OPut nA 1); EInv 1 (0%nat, OPut nA 2); ELin 1; EInv 2 (0%nat, OGet nA); ELin 0; ERet 1; ELin 2; ERet 2; ERet 0].
